@@ -1,5 +1,5 @@
 (* C19 - under Ringing Room's control, changes apply atomically and only between touches. *)
-From Wh Require Import Prelude Permute PN Gens Complib Tower Rhythm PyStr Sys GensP BotP RegressP Conc ConcP.
+From Wh Require Import Prelude Permute PN Gens Complib Tower Rhythm PyStr Sys GensP BotP RegressP Conc ConcP SettingP.
 From Coq Require Import NArith ZArith QArith.
 Close Scope Q_scope.
 
@@ -81,3 +81,16 @@ Theorem C19_server_configuration : forall id,
                      bc_name := Some uWheatley; bc_instance := id; bc_peal := 180%Z; bc_inertia := 1%Q;
                      bc_initial_inertia := 0%Q; bc_gap := 1%Q; bc_max := 15; bc_min := 4 |}.
 Proof. exact server_configuration. Qed.
+
+(* a peal-speed setting that arrives while everybody is still waiting for a human leader to pull off: the new
+   speed is adopted, the line stays at infinity (no NaN, no jump), and a human bell's tick keeps polling for the
+   pull-off - nothing can be struck before the leader, and the first row is then placed at the NEW speed *)
+Theorem C19_speed_change_before_pull_off : forall r p t r',
+  r_start r = None -> ~ (r_interval r == 0)%Q -> (0 < p)%Z ->
+  regr_change_setting r KPealSpeed (VInt p) t = Ok r' ->
+  r_start r' = None
+  /\ r_interval r' = peal_speed_to_blow_interval (inject_Z p) (r_stage r)
+  /\ r_peal_speed r' = inject_Z p
+  /\ r_data r' = r_data r
+  /\ (forall now row place, regr_wait_plan r' now row place true = WPollPullOff).
+Proof. exact speed_change_before_pull_off. Qed.
